@@ -73,13 +73,19 @@ type binJob struct {
 // TestC16Binary drives the real binary through its own reload path (SIGUSR1, or --watch with a short poll
 // interval): the definitions file is rewritten several times, also back to an earlier content, and after every
 // rewrite newly accepted jobs must run the file's current tasks while jobs accepted before keep theirs.
-func TestC16Binary(t *testing.T) {
+func TestC16Binary(t *testing.T) { reloadBinary(t, "C16") }
+
+// TestC17Binary: the same histories decide the last clause of C17 for the running program - no edit of the
+// definition files, in particular none that restores an earlier content, is ignored by a reload.
+func TestC17Binary(t *testing.T) { reloadBinary(t, "C17") }
+
+func reloadBinary(t *testing.T, prop string) {
 	bin := filepath.Join(os.Getenv("VERIF_BIN"), "prunner")
 	if _, err := os.Stat(bin); err != nil {
 		t.Skipf("prunner binary not built: %v", err)
 	}
 	vh := helper(t)
-	col := ev.Get("C16", "binary", "the real prunner binary (go build ./cmd/prunner from the tree under test) with a pipelines.yml that is rewritten 2-5 times between 3 generated versions of one pipeline (1-3 chained tasks that print version-specific text; versions may share task names; the sequence often returns to an earlier version, e.g. A B A), reloaded by SIGUSR1 or by --watch with a 50 ms poll interval; after every rewrite jobs are scheduled over HTTP until one shows the new version (at most 3 s), and a slow job accepted just before the rewrite must keep the version it was accepted with; oracle: task names, dependencies (GET /job/detail) and output (GET /job/logs) of every job equal the version in force when it was accepted; non-trivial = the sequence returns to an earlier version; distinct by (mode, sequence, versions)")
+	col := ev.Get(prop, "binary", "the real prunner binary (go build ./cmd/prunner from the tree under test) with a pipelines.yml that is rewritten 2-5 times between 3 generated versions of one pipeline (1-3 chained tasks that print version-specific text; versions may share task names; the sequence often returns to an earlier version, e.g. A B A), reloaded by SIGUSR1 or by --watch with a 50 ms poll interval; after every rewrite jobs are scheduled over HTTP until one shows the new version (at most 3 s), and a slow job accepted just before the rewrite must keep the version it was accepted with; oracle: task names, dependencies (GET /job/detail) and output (GET /job/logs) of every job equal the version in force when it was accepted; non-trivial = the sequence returns to an earlier version; distinct by (mode, sequence, versions)")
 	auth := jwtauth.New("HS256", []byte(binSecret), nil)
 	_, token, _ := auth.Encode(map[string]interface{}{"sub": "bin"})
 	rapid.Check(t, func(rt *rapid.T) {
@@ -207,7 +213,7 @@ func TestC16Binary(t *testing.T) {
 			time.Sleep(20 * time.Millisecond)
 		}
 		if got, want := observed(firstID), defs[0].signature(); got != want {
-			rt.Fatalf("[C16] the first job ran {%s}, the definitions file says {%s}", got, want)
+			rt.Fatalf("["+prop+"] the first job ran {%s}, the definitions file says {%s}", got, want)
 		}
 		plan := fmt.Sprintf("mode=%s sequence=%v", map[bool]string{true: "watch", false: "SIGUSR1"}[watch], seq)
 		for i := 1; i < len(seq); i++ {
@@ -233,15 +239,15 @@ func TestC16Binary(t *testing.T) {
 					break
 				}
 				if got != prev.signature() {
-					rt.Fatalf("[C16] %s: after rewrite %d a job ran {%s}; the file said {%s} before and says {%s} now", plan, i, got, prev.signature(), cur.signature())
+					rt.Fatalf("["+prop+"] %s: after rewrite %d a job ran {%s}; the file said {%s} before and says {%s} now", plan, i, got, prev.signature(), cur.signature())
 				}
 				if time.Since(start) > 3*time.Second {
-					rt.Fatalf("[C16] %s: 3 s after rewrite %d (version %d -> %d) newly accepted jobs still run the previous definition {%s} instead of {%s}", plan, i, prev.version, cur.version, got, cur.signature())
+					rt.Fatalf("["+prop+"] %s: 3 s after rewrite %d (version %d -> %d) newly accepted jobs still run the previous definition {%s} instead of {%s}", plan, i, prev.version, cur.version, got, cur.signature())
 				}
 				time.Sleep(30 * time.Millisecond)
 			}
 			if got := observed(oldID); got != prev.signature() {
-				rt.Fatalf("[C16] %s: a job accepted before rewrite %d ran {%s}; it was accepted under {%s}", plan, i, got, prev.signature())
+				rt.Fatalf("["+prop+"] %s: a job accepted before rewrite %d ran {%s}; it was accepted under {%s}", plan, i, got, prev.signature())
 			}
 		}
 		back := false
